@@ -107,7 +107,8 @@ func genPortions(c *gen.Ctx) []string {
 			case 2:
 				ps = append(ps, fmt.Sprintf("%d/%d", r.Intn(5), r.Intn(3)))
 			case 3:
-				ps = append(ps, gen.Pick(r, []string{"", "%", "1/", "/2", "1.%", "abc", "1 / 2", "1  /2", "-1/2", "0x1/2", "1/2%", "٣/4"}))
+				// big.Rat.SetString reads fraction parts in base 0: leading zeros mean octal
+				ps = append(ps, gen.Pick(r, []string{"010/100", "007/008", "01/02", "0x1/0x2", "1/010", "00/1", "0b1/0b10", "0o7/0o10", "1_0/2_0","", "%", "1/", "/2", "1.%", "abc", "1 / 2", "1  /2", "-1/2", "0x1/2", "1/2%", "٣/4"}))
 			default:
 				d := gen.Pick(r, dens)
 				ps = append(ps, fmt.Sprintf("%d/%d", r.Int63n(d+1), d))
